@@ -25,6 +25,9 @@ func main() {
 		fmt.Fprintf(os.Stderr, "unknown command %s\n", os.Args[1])
 		os.Exit(2)
 	}
+	if os.Args[1] != "builtins" && os.Getenv("ACVH_NO_WARMUP") == "" {
+		warmup()
+	}
 	if err := fn(os.Args[2:]); err != nil {
 		fmt.Fprintln(os.Stderr, "acvh:", err)
 		os.Exit(2)
